@@ -461,21 +461,24 @@ func (e *Explorer) pending() int {
 
 // JobResult aggregates all paths of one harness run.
 type JobResult struct {
-	Name        string
-	Paths       []*PathResult // violations, known, unsupported, budget, internal (all non-ok kept); ok sampled
-	Counts      map[Status]int
-	Reach       map[string]int
-	Steps       int64
-	Queries     smt.Stats
-	Decisions   int64
-	Verdicts    int
-	Wall        time.Duration
-	Incomplete  string // non-empty if exploration stopped early
-	OKSamples   []*PathResult
-	Distinct    int
-	Funcs       map[string]bool
-	KnownHits   map[string]int
-	UncertainOK int
+	Name               string
+	Paths              []*PathResult // violations, known, unsupported, budget, internal (all non-ok kept); ok sampled
+	Counts             map[Status]int
+	Reach              map[string]int
+	Steps              int64
+	Queries            smt.Stats
+	Decisions          int64
+	Verdicts           int
+	Wall               time.Duration
+	Incomplete         string // non-empty if exploration stopped early
+	OKSamples          []*PathResult
+	Distinct           int
+	Funcs              map[string]bool
+	KnownHits          map[string]int
+	UncertainOK        int
+	CrossQueries       int
+	CrossDisagreements int
+	CrossErrors        []string
 }
 
 func sortedKeys[M ~map[string]V, V any](m M) []string {
